@@ -199,6 +199,10 @@ def _variant_ctor(prog, fdef):
             for vi, v in enumerate(a["variants"]):
                 if v["name"] == var and v["fields"] and all(str(x["name"]).isdigit() for x in v["fields"]):
                     return adt, var, vi, [str(x["name"]) for x in v["fields"]]
+        elif path not in getattr(prog, "fns", {}) and re.match(r"^(?:.*::)?[A-Z]\w*::[A-Z][a-z]\w*$", path):
+            # tuple-variant constructor of an enum of another crate (`e57::RecordValue::Single`): no ADT facts here, the
+            # naming convention Type::Variant identifies it
+            return adt, var, -1, ["0"]
     return None
 
 
@@ -878,6 +882,75 @@ def lower_lazy_next(prog, d, max_sites=40):
             dead2 = new_block({"k": "unreachable"})
             blocks[after]["term"] = {"k": "switch", "discr": mv(d2), "targets": [["0", head], ["1", keep_b]], "otherwise": dead2, "span": span}
         sites += 1
+        changed = True
+    return changed
+
+
+def expand_array_map(prog, d):
+    """`[a, b, c].map(f)` on an array literal is `[f(a), f(b), f(c)]`: spelled out with direct calls of f (a closure,
+    a function, or a tuple-variant constructor, which becomes a literal)"""
+    blocks, locs = d["blocks"], d["locals"]
+    changed = False
+    for bi in range(len(blocks)):
+        b = blocks[bi]
+        if b["cleanup"] or b.get("array_map_expanded"):
+            continue
+        t = b["term"]
+        if t["k"] != "call" or t["target"] < 0 or len(t["args"]) != 2 or t["dest"]["proj"]:
+            continue
+        c = _callee(t)
+        if not (c.endswith("::map") and "array" in c and "Iterator" not in c and "Option" not in c and "Result" not in c):
+            continue
+        aop = t["args"][0]
+        if aop.get("k") not in ("copy", "move") or aop["place"]["proj"]:
+            continue
+        ds = _def_sites(blocks, aop["place"]["local"])
+        if len(ds) != 1 or ds[0][1] != "stmt":
+            continue
+        rv = ds[0][2]["rv"] if isinstance(ds[0][2], dict) and "rv" in ds[0][2] else None
+        if rv is None or rv["k"] != "aggregate" or rv["kind"].get("agg") != "array" or not rv["ops"]:
+            continue
+        fop = t["args"][1]
+        fdef = _closure_def(blocks, fop)
+        if fdef is None:
+            continue
+        ctor = _variant_ctor(prog, fdef) if fdef[0] == "fn" else None
+        if ctor is None and fdef[1] not in prog.fns:
+            continue
+        span = t.get("span", {"file": "", "l0": 0, "l1": 0, "exp": False})
+        line = span.get("l0", 0)
+        dest, target = t["dest"], t["target"]
+        ety = "?"
+        if fdef[1] in prog.fns:
+            ety = prog.fns[fdef[1]].locals[0]["ty"]
+        results = []
+        cur = b
+        first = True
+        for op in rv["ops"]:
+            locs.append({"ty": ety, "name": ""})
+            r = len(locs) - 1
+            results.append(r)
+            if ctor is not None:
+                en, var, vidx, fields = ctor
+                lit = {"k": "aggregate", "kind": {"agg": "adt", "adt": en, "variant": var, "vidx": vidx, "fields": fields[:1] or ["0"]}, "ops": [op]}
+                cur["stmts"].append({"place": {"local": r, "proj": []}, "rv": lit, "line": line})
+                continue
+            if fdef[0] == "closure":
+                locs.append({"ty": "(?,)", "name": ""})
+                tup = len(locs) - 1
+                cur["stmts"].append({"place": {"local": tup, "proj": []}, "rv": {"k": "aggregate", "kind": {"agg": "tuple"}, "ops": [op]}, "line": line})
+                cargs = [{"k": "copy", "place": fop["place"]} if fop.get("k") in ("copy", "move") else fop, {"k": "move", "place": {"local": tup, "proj": []}}]
+            else:
+                cargs = [op]
+            blocks.append({"cleanup": False, "stmts": [], "term": {"k": "goto", "target": target}, "expanded": "array:map"})
+            nb = len(blocks) - 1
+            cur["term"] = {"k": "call", "callee": {"path": fdef[1], "resolved": fdef[1], "is_resolved": True, "local": fdef[1] in prog.fns, "crate": "", "args": []},
+                           "args": cargs, "dest": {"local": r, "proj": []}, "target": nb, "span": span}
+            cur = blocks[nb]
+        cur["stmts"].append({"place": dest, "rv": {"k": "aggregate", "kind": dict(rv["kind"]), "ops": [{"k": "move", "place": {"local": r, "proj": []}} for r in results]}, "line": line})
+        if cur is b:
+            b["term"] = {"k": "goto", "target": target}
+        b["array_map_expanded"] = True
         changed = True
     return changed
 
@@ -1569,6 +1642,16 @@ class Inliner:
                     d2["blocks"] = copy.deepcopy(f.blocks)
                     d2["locals"] = list(f.locals)
                     if expand_array_from_fn(self.prog, d2):
+                        f = Fn(d2, f.crate)
+                        f.program = self.prog
+                        self.prog.fns[p] = f
+                        self.expanded += 1
+                        changed = True
+                if self.expand and any(b["term"]["k"] == "call" and not b["cleanup"] and _callee(b["term"]).endswith("::map") and "array" in _callee(b["term"]) and not b.get("array_map_expanded") for b in f.blocks):
+                    d2 = dict(f.d)
+                    d2["blocks"] = copy.deepcopy(f.blocks)
+                    d2["locals"] = list(f.locals)
+                    if expand_array_map(self.prog, d2):
                         f = Fn(d2, f.crate)
                         f.program = self.prog
                         self.prog.fns[p] = f
